@@ -795,3 +795,72 @@ func genRuleCase(r *rng, g *pgen) string {
 		return "let q = 1; T | top 2 by " + wrap(bad)
 	}
 }
+
+// ---- exhaustive small families aimed at operand wrapping (C01, C06) and join conditions (C03)
+func init() {
+	families["signs"] = func(r *rng, n int, emit emitFn) {
+		// all expressions of the grammar S ::= atom | -S | +S | (S) | S[i] | f(S) | not(S) | S*a | a-S up to depth 4
+		atoms := []string{"a", "1", "n"}
+		var level [][]string
+		level = append(level, atoms)
+		for d := 1; d <= 4; d++ {
+			prev := level[d-1]
+			var cur []string
+			for _, s := range prev {
+				cur = append(cur, "-"+s, "("+s+")")
+				if d <= 3 {
+					cur = append(cur, "+"+s, s+"[1]", "f("+s+")", "not("+s+")", s+" * a", "a - "+s, "isnull("+s+")")
+				}
+			}
+			level = append(level, cur)
+		}
+		seen := map[string]bool{}
+		for _, lv := range level {
+			for _, s := range lv {
+				if seen[s] {
+					continue
+				}
+				seen[s] = true
+				emit(hx("T | where " + s))
+				if len(s) < 14 {
+					emit(hx("let n = " + s + "; T | where -n + n[0] == n"))
+					emit(hx("T | extend y = " + s + " | take 1"))
+				}
+			}
+		}
+	}
+	families["joinconds"] = func(r *rng, n int, emit emitFn) {
+		atoms := []string{"$left.a", "$left.b", "$right.a", "$right.b", "1", "x", "k"}
+		ops := []string{"==", "!=", "<", "=~", "+"}
+		var simple []string
+		for _, a := range atoms {
+			for _, b := range atoms {
+				for _, op := range ops {
+					simple = append(simple, a+" "+op+" "+b)
+				}
+			}
+		}
+		wrappers := []func(string) string{
+			func(s string) string { return s },
+			func(s string) string { return "not(" + s + ")" },
+			func(s string) string { return "(" + s + ")" },
+			func(s string) string { return s + " and $left.a == $right.a" },
+			func(s string) string { return "$left.k == $right.k, " + s },
+			func(s string) string { return "iff(" + s + ", 1, 0) == 1" },
+			func(s string) string { return "(" + s + ") == ($left.b == $right.b)" },
+		}
+		for _, s := range simple {
+			for wi, w := range wrappers {
+				if wi > 1 && !strings.Contains(s, "==") {
+					continue
+				}
+				emit(hx("let x = 5; A | join (B) on " + w(s)))
+			}
+		}
+		for _, k := range []string{"k", "`k`", "true", "x", "a, b", "$left", "k, $left.a == $right.b, k"} {
+			for _, kind := range []string{"", "kind=inner ", "kind=leftouter ", "kind=innerunique "} {
+				emit(hx("let x = 5; A | where c > 1 | join " + kind + "(B | take 2) on " + k + " | count"))
+			}
+		}
+	}
+}
